@@ -271,20 +271,54 @@ void ListDir(const std::string& root, const std::string& rel, std::map<std::stri
 	}
 }
 
-Snap TakeSnap(const Endpoint::Ptr& sender)
+// is this object part of a zone forest other than `cur`?  (names of forest objects start with "t<id>_")
+bool Foreign(const String& name, const std::string& cur)
+{
+	const std::string& n = name.GetData();
+	if (n.compare(0, cur.size(), cur) == 0) return false;
+	if (n.size() < 3 || n[0] != 't' || !isdigit((unsigned char)n[1])) return false;
+	size_t i = 1;
+	while (i < n.size() && isdigit((unsigned char)n[i])) i++;
+	return i < n.size() && n[i] == '_';
+}
+
+// serialised objects of all OTHER forests: checked once per case (no message for one forest may touch another)
+std::string ForeignHash(const std::string& cur)
+{
+	std::string acc;
+	for (const Type::Ptr& type : Type::GetAllTypes()) {
+		auto *ct = dynamic_cast<ConfigType *>(type.get());
+		if (!ct) continue;
+		for (const ConfigObject::Ptr& o : ct->GetObjects()) {
+			if (!Foreign(o->GetName(), cur)) continue;
+			acc += (type->GetName() + "!" + o->GetName() + "=").GetData();
+			acc += JsonEncode(Serialize(o, FAState | FAConfig)).GetData();
+		}
+	}
+	return SHA256(acc).GetData();
+}
+
+std::string l_ForeignBefore, l_ForeignPfx;
+
+Snap TakeSnap(const Endpoint::Ptr& sender, const std::string& cur)
 {
 	Snap s;
 	for (const Type::Ptr& type : Type::GetAllTypes()) {
 		auto *ct = dynamic_cast<ConfigType *>(type.get());
 		if (!ct) continue;
+		bool eph = type->GetName() == "Comment" || type->GetName() == "Downtime";
 		for (const ConfigObject::Ptr& o : ct->GetObjects()) {
-			Dictionary::Ptr d = Serialize(o, FAEphemeral | FAState | FAConfig);   // what the REST API shows
+			if (Foreign(o->GetName(), cur)) continue;
+			// state + config attributes; comments/downtimes additionally with their ephemeral ones (removal info)
+			Dictionary::Ptr d = Serialize(o, FAState | FAConfig | (eph ? FAEphemeral : 0));
 			if (o == sender) d->Remove("remote_log_position");
 			d->Set("__active", o->IsActive());
 			s.objs[(type->GetName() + "!" + o->GetName()).GetData()] = JsonEncode(d).GetData();
 		}
 	}
+	auto TA = std::chrono::steady_clock::now();
 	ListDir(ScratchDir() + "/data", "", s.files);
+	if (getenv("MZ_TIME")) std::cerr << "x files=" << std::chrono::duration_cast<std::chrono::microseconds>(std::chrono::steady_clock::now() - TA).count() << " nfiles=" << s.files.size() << " nobjs=" << s.objs.size() << "\n";
 	for (auto& kv : l_Trees)
 		for (auto& c : kv.second.conns)
 			s.out[c.first] = c.second->m_OutgoingMessagesQueue.size();
@@ -488,9 +522,13 @@ VOP(mz_msg)
 	if (ts == "old") msg->Set("ts", pos - 5);
 	else if (ts == "new") msg->Set("ts", std::max(pos, now) + 1);
 
+	auto T0 = std::chrono::steady_clock::now();
 	DrainAll();
-	Snap before = TakeSnap(sndEp);
+	auto T1 = std::chrono::steady_clock::now();
+	if (l_ForeignPfx != t.pfx) { l_ForeignPfx = t.pfx; l_ForeignBefore = ForeignHash(t.pfx); }
+	Snap before = TakeSnap(sndEp, t.pfx);
 	int base = ThreadCount();
+	auto T2 = std::chrono::steady_clock::now();
 
 	// ---- the call under test
 	conn->MessageHandler(msg);
@@ -507,10 +545,15 @@ VOP(mz_msg)
 		if (i > 40000) { hang = true; break; }
 		std::this_thread::sleep_for(std::chrono::microseconds(250));
 	}
+	auto T3 = std::chrono::steady_clock::now();
 	{ std::lock_guard<std::mutex> lock(l_Listener->m_ConfigSyncStageLock); }
 	DrainAll();
-	Snap after = TakeSnap(sndEp);
+	auto T4 = std::chrono::steady_clock::now();
+	Snap after = TakeSnap(sndEp, t.pfx);
 
+	auto T5 = std::chrono::steady_clock::now();
+	if (getenv("MZ_TIME")) { auto us = [](auto a, auto b) { return (long)std::chrono::duration_cast<std::chrono::microseconds>(b - a).count(); };
+		std::cerr << method << " drain1=" << us(T0, T1) << " snap1=" << us(T1, T2) << " handle+wait=" << us(T2, T3) << " drain2=" << us(T3, T4) << " snap2=" << us(T4, T5) << "\n"; }
 	// ---- compare
 	std::vector<std::string> what;
 	for (auto& kv : after.objs) {
@@ -541,3 +584,10 @@ VOP(mz_msg)
 	for (size_t i = 0; i < what.size() && i < 4; i++) o << " " << what[i];
 	Out(o.str());
 }
+
+// end of case: objects of the forests the case did not address must be untouched
+static struct MzCaseEnd { MzCaseEnd() { RegisterCaseEnd([]() {
+	if (l_ForeignPfx.empty()) return;
+	if (ForeignHash(l_ForeignPfx) != l_ForeignBefore) Out("foreign changed=1");
+	l_ForeignPfx.clear();
+}); } } l_MzCaseEnd;
